@@ -58,6 +58,15 @@ impl VariableByteInteger {
         Some(Self { encoded: buf })
     }
 
+    /// Encode a length computed in `usize` (a Remaining Length or Property Length a builder
+    /// has summed up); a length the encoding cannot express is reported as `PacketTooLarge`.
+    pub(crate) fn from_len(len: usize) -> Result<Self, crate::mqtt::result_code::MqttError> {
+        u32::try_from(len)
+            .ok()
+            .and_then(Self::from_u32)
+            .ok_or(crate::mqtt::result_code::MqttError::PacketTooLarge)
+    }
+
     /// Decode back to `u32`.
     pub fn to_u32(&self) -> u32 {
         let mut multiplier = 1u32;
